@@ -35,8 +35,9 @@ def pick_fields(v):
     return rep, (plain[0] if plain else None)
 
 
-def build(v, ecs, lvl):
-    """-> event"""
+def build(v, ecs, lvl, variant=0):
+    """-> event.  variant 0: every leaf set by name; variant 1: components and whole fields assigned as ER7 text in the
+    message's own delimiters, plus (TOLERANT) a segment the structure does not list, with components and repetitions"""
     import_hl7apy()
     from hl7apy.core import Message
     from hl7apy.parser import parse_message
@@ -45,7 +46,8 @@ def build(v, ecs, lvl):
     ec["SEGMENT"] = "\r"
     ec["GROUP"] = "\r"
     eclist = [ord(ecs[0]), ord(ecs[1]), ord(ecs[2]), ord(ecs[3]), ord(ecs[4]), ord(ecs[5]) if six else 0]
-    e = {"k": "delims", "v": v, "ec": eclist, "doc": [], "out": [], "mllp": [], "ecs": [], "pec": [], "reenc": [], "six": six, "lvl": lvl}
+    e = {"k": "delims", "v": v, "ec": eclist, "doc": [], "out": [], "mllp": [], "ecs": [], "pec": [], "reenc": [], "six": six, "lvl": lvl,
+         "variant": variant}
     try:
         m = Message("ADT_A01", version=v, validation_level=lvl, encoding_chars=dict(ec))
         m.msh.msh_7 = "20200101"
@@ -67,12 +69,24 @@ def build(v, ecs, lvl):
             r, bc, cc = rep
             reps = []
             for k, tag in enumerate(("A", "B")):
-                f = pid.add_field(r["name"])
-                setattr(f, bc["name"].lower(), tag + "1")
-                comp = getattr(f, cc["name"].lower())
-                setattr(comp, cc["subs"][0]["name"].lower(), tag + "2")
-                setattr(comp, cc["subs"][1]["name"].lower(), tag + "3")
                 ncomp = max(bc["j"], cc["j"])
+                k0, k1 = cc["subs"][0]["k"], cc["subs"][1]["k"]
+                subtext = ecs[2].join((tag + "2") if i == k0 else (tag + "3") if i == k1 else "" for i in range(1, max(k0, k1) + 1))
+                if variant == 0:
+                    f = pid.add_field(r["name"])
+                    setattr(f, bc["name"].lower(), tag + "1")
+                    comp = getattr(f, cc["name"].lower())
+                    setattr(comp, cc["subs"][0]["name"].lower(), tag + "2")
+                    setattr(comp, cc["subs"][1]["name"].lower(), tag + "3")
+                elif k == 0:
+                    # the named component gets its subcomponents as one text
+                    f = pid.add_field(r["name"])
+                    setattr(f, bc["name"].lower(), tag + "1")
+                    setattr(f, cc["name"].lower(), subtext)
+                else:
+                    # the whole repetition as one text
+                    f = pid.add_field(r["name"])
+                    f.value = ecs[1].join((tag + "1") if j == bc["j"] else subtext if j == cc["j"] else "" for j in range(1, ncomp + 1))
                 comps = [[[]] for _ in range(ncomp)]
                 comps[bc["j"] - 1] = [cps(tag + "1")]
                 subs = [[] for _ in range(max(cc["subs"][0]["k"], cc["subs"][1]["k"]))]
@@ -82,6 +96,14 @@ def build(v, ecs, lvl):
                 reps.append(comps)
             fields[r["i"] - 1] = reps
         doc.append({"name": cps("PID"), "fields": fields})
+        if variant == 1 and lvl == 2:
+            z = m.add_segment("ZXT")
+            z.zxt_1 = "a" + ecs[1] + "b" + ecs[2] + "c"
+            z.add_field("ZXT_1").value = "d"
+            z.zxt_2 = "e" + ecs[1] + "f"
+            f1 = [[[cps("a")], [cps("b"), cps("c")]], [[cps("d")]]]       # two repetitions; the first: a, then b with subcomponent c
+            f2 = [[[cps("e")], [cps("f")]]]
+            doc.append({"name": cps("ZXT"), "fields": [f1, f2]})
         e["doc"] = doc
         out = m.to_er7()
         e["out"] = cps(out)
@@ -155,6 +177,7 @@ def bad_sets():
 def signature(e, clause):
     sig = {"clause": clause, "k": e["k"], "v": e.get("v"), "outcome": e["outcome"]}
     if e["k"] == "delims":
+        sig["variant"] = e.get("variant", 0)
         sig["six"] = e["six"]
         sig["lvl"] = e["lvl"]
     else:
@@ -182,10 +205,11 @@ def run(ctx):
             chosen = rnd.sample(sets, 900)
         for s in chosen:
             for lvl in ((2,) if quick and rnd.random() < 0.6 else (2, 1)):
-                items.append((v, s, lvl))
+                var = len(items) % 2
+                items.append((v, s, lvl, var))
                 if v >= "2.7":
                     extra = rnd.choice([c for c in allp if c not in s])
-                    items.append((v, s + extra, lvl))
+                    items.append((v, s + extra, lvl, 1 - var))
     rnd.shuffle(items)
     events = []
     for part in pmap(_chunk, [items[k::32] for k in range(32)]):
@@ -194,7 +218,7 @@ def run(ctx):
     for i, e in enumerate(events):
         e["id"] = i + 1
     ctx.evaluations += len(events)
-    send = [{k: e[k] for k in e if k not in ("six", "lvl", "desc", "how", "v")} for e in events]
+    send = [{k: e[k] for k in e if k not in ("six", "lvl", "desc", "how", "v", "variant")} for e in events]
     failed, _ = judge(ctx, "Er7Trace", "Er7Trace.cfg", send)
     byid = {e["id"]: e for e in events}
     for e in events:
@@ -208,5 +232,6 @@ def run(ctx):
     ctx.rule = ("ordered choices of 5 distinct characters out of %d punctuation marks (quick: the default, its 4 cyclic shifts and "
                 "18 random sets per version; thorough: 900 per version incl. all 6720 arrangements of 8 marks overall), for "
                 "versions >= 2.7 also with a sixth (truncation) character, x 12 versions x levels, each on a built ADT_A01 with a "
-                "repeated field, components and subcomponents; 17 defective sets x 3 entry points" % len(PUNCT))
+                "repeated field, components and subcomponents - set leaf by leaf, or assigned as ER7 text (a component with its subcomponents, a "
+                "whole repetition) together with a segment the structure does not list; 17 defective sets x 3 entry points" % len(PUNCT))
     ctx.assumptions += ["leaf values are alphanumeric, so no escaping interferes with the delimiter law (escaping is C06)"]
